@@ -5,7 +5,7 @@ NOTES = ("Thorough tiers of C03, C06, C08, C11, C14, C15, C16, C17 add a libFuzz
 NOT_APPLICABLE = {}
 
 add("C18", "exhaustive state enumeration + proptest over seeds/lengths/intervals; range and permutation oracles",
-    "Thorough tier enumerates all 2^31-2 generator states for generate() on 8 intervals and for the shuffle index on 7 lengths (exhaustive for those), "
+    "Thorough tier enumerates all 2^31-2 generator states for generate() on 12 intervals and for the shuffle index on 7 lengths (exhaustive for those), "
     "quick enumerates both ends of the state space plus a seed-offset progression; seeds up to u64::MAX, interval classes, shuffle lengths/duplicates and Tensor::random shapes are sampled with proptest. "
     "Exploration level: no claim beyond the enumerated/sampled domain.",
     "Trusts the harness's modular-inverse computation of the seed that leads to a given state; Tensor::random is clock-seeded so only seed-independent assertions are made.",
